@@ -17,6 +17,12 @@ func H_C03_fma() {
 	x := vDec("x", fx, wx, vCfgOr("capx", 0), pa[1])
 	y := vDec("y", fy, wy, vCfgOr("capx", 0), pa[2])
 	u := vDec("u", fu, wu, vCfgOr("capx", 0), pa[3])
+	if fy == fFinite && vCfgOr("ypat0", -1) >= 0 {
+		// concrete multiplier mantissa (see H_C01_mul)
+		for i := 0; i < wy; i++ {
+			y.mant[i] = patWord(vCfg(vN("ypat", i)))
+		}
+	}
 	var z *Decimal
 	switch alias {
 	case 1:
